@@ -147,6 +147,24 @@ static int h_tls_poll(struct pollfd *fds, nfds_t n, int timeout) {
         }
         {
             char *ev = h_tls_script[h_tls_pos++];
+            if (ev[0] == 'b') { /* a burst: the writes that follow are all made (one TLS record each) before the reader gets to read */
+                int any = 0;
+                while (h_tls_pos < h_tls_nscript && h_tls_script[h_tls_pos][0] == 'w') {
+                    int l;
+                    uint8_t *b = hx(h_tls_script[h_tls_pos++] + 2, &l);
+                    if (l > 0 && h_tls_peer && SSL_write(h_tls_peer, b, l) != l)
+                        abort();
+                    (free)(b);
+                    any |= l > 0;
+                }
+                if (any) {
+                    struct pollfd pf = {h_tls_peerfd, POLLOUT, 0};
+                    poll(&pf, 1, 50); /* (both records are on their way) */
+                    poll(fds, n, 1000);
+                    usleep(2000);
+                }
+                continue;
+            }
             if (ev[0] == 'w' || ev[0] == 'W') {
                 int l;
                 uint8_t *b = hx(ev + 2, &l);
@@ -483,6 +501,22 @@ static int group_end(int argc, char **argv, int from) {
         i++;
     return i;
 }
+/* the peer of a tlsconn in PSK mode: TLS 1.3 external PSK under the given identity and key */
+static char *h_peer_pskid;
+static uint8_t *h_peer_pskkey;
+static int h_peer_pskkeylen;
+static int h_peer_psk_use(SSL *ssl, const EVP_MD *md, const unsigned char **id, size_t *idlen, SSL_SESSION **sess) {
+    static const unsigned char aes128gcmsha256[2] = {0x13, 0x01};
+    const SSL_CIPHER *cipher = SSL_CIPHER_find(ssl, aes128gcmsha256);
+    (void)md;
+    *sess = SSL_SESSION_new();
+    if (!*sess || !cipher || !SSL_SESSION_set1_master_key(*sess, h_peer_pskkey, h_peer_pskkeylen) ||
+        !SSL_SESSION_set_cipher(*sess, cipher) || !SSL_SESSION_set_protocol_version(*sess, TLS1_3_VERSION))
+        return 0;
+    *id = (const unsigned char *)h_peer_pskid;
+    *idlen = strlen(h_peer_pskid);
+    return 1;
+}
 static int op_tlsconn(int argc, char **argv, FILE *out) {
     struct list *confs, *saved;
     struct sockaddr_in a, b;
@@ -543,6 +577,17 @@ static int op_tlsconn(int argc, char **argv, FILE *out) {
         conf->tlsconf = h_tlsconfs[((v = kv(g1 - g0, argv + g0, "tls")) && atoi(v)) ? 1 : 0];
         conf->certnamecheck = (v = kv(g1 - g0, argv + g0, "namecheck")) ? atoi(v) : 1;
         conf->certcncheck = (v = kv(g1 - g0, argv + g0, "cncheck")) ? atoi(v) : 0;
+        if ((v = kv(g1 - g0, argv + g0, "psk"))) { /* psk=<identity hex>:<key hex>: a TLS-PSK block */
+            char *colon = strchr(v, ':');
+            int kl;
+            if (!colon)
+                return 0;
+            *colon = 0;
+            conf->pskid = hxstr(v);
+            conf->pskkey = hx(colon + 1, &kl);
+            conf->pskkeylen = kl;
+            *colon = ':';
+        }
         conf->clients = list_create();
         conf->lock = (malloc)(sizeof(pthread_mutex_t));
         pthread_mutex_init(conf->lock, NULL);
@@ -600,8 +645,22 @@ static int op_tlsconn(int argc, char **argv, FILE *out) {
         return 0;
     cctx = SSL_CTX_new(TLS_client_method());
     SSL_CTX_set_verify(cctx, SSL_VERIFY_NONE, NULL);
-    SSL_CTX_use_certificate(cctx, x);
-    SSL_CTX_use_PrivateKey(cctx, h_cli_key);
+    g1 = group_end(argc, argv, 1);
+    h_peer_pskid = NULL;
+    if ((v = kv(g1 - 1, argv + 1, "psk"))) { /* the peer offers a PSK identity and has no certificate */
+        char *colon = strchr(v, ':');
+        if (!colon)
+            return 0;
+        *colon = 0;
+        h_peer_pskid = hxstr(v);
+        h_peer_pskkey = hx(colon + 1, &h_peer_pskkeylen);
+        *colon = ':';
+        SSL_CTX_set_ciphersuites(cctx, "TLS_AES_128_GCM_SHA256");
+        SSL_CTX_set_psk_use_session_callback(cctx, h_peer_psk_use);
+    } else {
+        SSL_CTX_use_certificate(cctx, x);
+        SSL_CTX_use_PrivateKey(cctx, h_cli_key);
+    }
     cssl = SSL_new(cctx);
     SSL_set_fd(cssl, c);
     if (SSL_connect(cssl) == 1) {
